@@ -150,6 +150,11 @@ def main(check, argv=None):
         return 0
 
     t0 = time.time()
+    rdir = os.path.join(VERIF, 'replays')
+    if os.path.isdir(rdir):     # replay files of earlier batches of this check are stale
+        for fn_ in os.listdir(rdir):
+            if fn_.startswith(check.pid + '-'):
+                os.unlink(os.path.join(rdir, fn_))
     b = check.budget(tier)
     nruns = args.runs or b['runs']
     tcap = args.time or b['time']
